@@ -51,8 +51,10 @@ def _new_subdir_sources(sc, k):
     """Sources of phase k that live in a directory which no source of phase k-1 lives in."""
     before = {os.path.dirname(s) for s in sc["phases"][k - 1]["project"]["sources"]}
     gdirs = [g["dir"] + "/" for g in sc["phases"][k]["project"]["globs"] if g.get("deep")]
+    # a file directly in the pattern's base directory is found through the pending watch of
+    # that directory (and of its missing ancestors): only deeper new directories are F17
     return sorted(s for s in sc["phases"][k]["project"]["sources"]
-                  if os.path.dirname(s) not in before and any(s.startswith(g) for g in gdirs))
+                  if os.path.dirname(s) not in before and any(s.startswith(g) and os.path.dirname(s) + "/" != g for g in gdirs))
 
 
 def gen_scenario(seed, tier="quick", opts=None):
